@@ -26,7 +26,9 @@ def xf(pt, mask):
 
 def base_config(sc, method):
     mask = sc["mask"]
-    cfg = {"variables": {"initial_values": [9.0, 9.0, 9.0], "mask": mask},
+    # (the mask may be spelled with integers 0/1: every second configuration does)
+    spelled = [int(m) for m in mask] if (sum(mask) + len(sc.get("script", []))) % 2 else mask
+    cfg = {"variables": {"initial_values": [9.0, 9.0, 9.0], "mask": spelled},
            "realizations": {"weights": [1.0, 2.0]},
            "gradient": {"number_of_perturbations": P, "perturbation_magnitudes": 0.25},
            "samplers": [{"method": "rvdesign/design", "shared": True}],
@@ -126,6 +128,22 @@ def drive_script(sc):
 
     if transforms is not None:
         kwargs["transforms"] = transforms
+    if not sc["nested"] and transforms is None and zlib.crc32(str(sc["script"]).encode()) % 4 == 0 and not all(mask):
+        # the step OBJECT has a history: it ran before with a nested optimization that owns the fixed variables; the
+        # judged run is an ordinary masked optimization on the same object
+        warm = Plan(ctx)
+        wcount = {"n": 0}
+
+        def warm_fn(_plan, variables):
+            wcount["n"] += 1
+            vec = np.array([v if m else v + 10 * wcount["n"] for v, m in zip(variables, mask)], dtype=np.float64)
+            return FunctionResults(batch_id=None, metadata={}, realizations=Realizations(failed_realizations=np.zeros(R, dtype=bool)),
+                                   evaluations=FunctionEvaluations.create(vec, np.zeros((R, 1))),
+                                   functions=Functions.create(np.array(0.0), np.array([0.0])))
+        warm.add_function(warm_fn)
+        outcome_of(lambda: plan.run_step(step, config=cfg, variables=start, nested_optimization=warm))
+        rec.take()
+        ScriptPlugin.reset([])
     _, outcome = outcome_of(lambda: plan.run_step(step, config=cfg, variables=start, **kwargs))
     rows, results = rec.take()
     trace = [{"ev": "Start", "x0": [int(v) for v in X0], "mask": mask, "outcome": outcome, "kind": "", "xf": [], "nested": [], "rows": [],
